@@ -5,7 +5,14 @@ Import ListNotations.
 Require Import Nib.C07.Model Nib.C07.Spec Nib.C07.Facts Nib.C07.Proofs.
 
 Definition mk (u : nat) (n : N) (cid : option Z) (sg : option nat) (e : exec_outcome) (c : bool) : emsg :=
-  {| m_uid := u; m_nonce := n; m_cid := cid; m_sig := sg; m_funded := true; m_exec := e; m_create := c |}.
+  {| m_uid := u; m_nonce := n; m_cid := cid; m_sig := sg; m_funded := true; m_exec := e; m_create := c; m_touch := [] |}.
+(** the same message paying / calling / naming as beneficiary the accounts [ts] *)
+Definition touching (m : emsg) (ts : list nat) : emsg :=
+  {| m_uid := m_uid m; m_nonce := m_nonce m; m_cid := m_cid m; m_sig := m_sig m; m_funded := m_funded m;
+     m_exec := m_exec m; m_create := m_create m; m_touch := ts |}.
+(** account 0 is a BaseAccount (add-genesis-account), 10 a vesting account, everything else an EthAccount *)
+Definition kd (a : nat) : akind := match a with 0 => KBase | 10 => KVesting | _ => KEth end.
+Definition eth (_ : nat) : akind := KEth.
 
 Definition ch : Z := 6930%Z.
 Definition m0 := mk 0 0 (Some ch) (Some 0) ExecOk false.
@@ -31,17 +38,17 @@ Example accept_nonvacuous :
 Proof. vm_compute. repeat split; reflexivity. Qed.
 
 Example history_nonvacuous :
-  map r_accepted (snd (run ch recover_oracle std_chain init hist)) =
+  map r_accepted (snd (run ch recover_oracle kd load_std std_chain init hist)) =
     [true; false; false; true; true; false; false; true; false; false; true; false] /\
-  map r_executed (snd (run ch recover_oracle std_chain init hist)) =
+  map r_executed (snd (run ch recover_oracle kd load_std std_chain init hist)) =
     [[0]; []; []; [1; 2]; []; []; []; []; []; []; [5; 6]; []] /\
-  map r_created (snd (run ch recover_oracle std_chain init hist)) =
+  map r_created (snd (run ch recover_oracle kd load_std std_chain init hist)) =
     [[]; []; []; [(2, 2%N)]; []; []; []; []; []; []; [(5, 4%N); (6, 5%N)]; []] /\
-  map (fst (run ch recover_oracle std_chain init hist)) [0; 10] = [6%N; 1%N].
+  map (fst (run ch recover_oracle kd load_std std_chain init hist)) [0; 10] = [6%N; 1%N].
 Proof. vm_compute. repeat split; reflexivity. Qed.
 
 Example checker_nonvacuous :
-  Pb ch recover_oracle [0; 10] init (trace ch recover_oracle std_chain init hist) = true.
+  Pb ch recover_oracle [0; 10] init (trace ch recover_oracle kd load_std std_chain init hist) = true.
 Proof. vm_compute. reflexivity. Qed.
 
 (** the checker is not trivially true: a trace in which the replayed tx executes again is refused *)
@@ -91,5 +98,55 @@ Qed.
 
 Example at_most_once_nonvacuous :
   hash_binding ch recover_oracle hist /\
-  all_executed (trace ch recover_oracle std_chain init hist) = [0; 1; 2; 5; 6].
+  all_executed (trace ch recover_oracle kd load_std std_chain init hist) = [0; 1; 2; 5; 6].
 Proof. split; [apply binding_b_sound; vm_compute; reflexivity|vm_compute; reflexivity]. Qed.
+
+(* ------------------------------------------------------------------ account types and touched accounts *)
+
+(** account 0 (BaseAccount) executes g0, g1; account 1 then pays 0 and 10 (vesting, Cosmos sequence 1) in an
+    executed tx, names them in a reverting one; then everything is resubmitted *)
+Definition g0 := mk 0 0 (Some ch) (Some 0) ExecOk false.
+Definition g1 := mk 1 1 (Some ch) (Some 0) ExecOk true.
+Definition gift := touching (mk 2 0 (Some ch) (Some 1) ExecOk false) [0; 10].
+Definition gift_rev := touching (mk 3 1 (Some ch) (Some 1) ExecVmErr false) [0; 10].
+Definition hist_touch : list tx :=
+  [TxEth [g0]; TxEth [g1]; TxCosmos 10 0 false true; TxEth [gift; gift_rev]; TxEth [g0]; TxEth [g1];
+   TxCosmos 10 0 false true; TxEth [touching g0 [0; 1]]].
+
+Example touch_nonvacuous :
+  map r_accepted (snd (run ch recover_oracle kd load_std std_chain init hist_touch)) =
+    [true; true; true; true; false; false; false; false] /\
+  all_executed (trace ch recover_oracle kd load_std std_chain init hist_touch) = [0; 1; 2; 3] /\
+  map (fst (run ch recover_oracle kd load_std std_chain init hist_touch)) [0; 1; 10] = [2%N; 2%N; 1%N] /\
+  Pb ch recover_oracle [0; 1; 10] init (trace ch recover_oracle kd load_std std_chain init hist_touch) = true /\
+  hash_binding ch recover_oracle hist_touch.
+Proof.
+  split; [vm_compute; reflexivity|]. split; [vm_compute; reflexivity|]. split; [vm_compute; reflexivity|].
+  split; [vm_compute; reflexivity|]. apply binding_b_sound. vm_compute. reflexivity.
+Qed.
+
+(** with the loader that fills the nonce in only for EthAccounts the same history is NOT safe: the payment
+    writes sequence 0 back to the BaseAccount and to the vesting account, and the resubmitted g0, g1 and the
+    Cosmos tx with sequence 0 are accepted and executed a second time; the checker refuses that trace *)
+Lemma eth_only_loader_refuted :
+  exists kinds ts,
+    hash_binding ch recover_oracle ts /\
+    count_occ Nat.eq_dec (all_executed (trace ch recover_oracle kinds load_eth_only std_chain init ts)) 0 = 2 /\
+    Pb ch recover_oracle [0; 1; 10] init (trace ch recover_oracle kinds load_eth_only std_chain init ts) = false.
+Proof.
+  exists kd, hist_touch. split; [apply binding_b_sound; vm_compute; reflexivity|].
+  split; vm_compute; reflexivity.
+Qed.
+
+(** … while it is safe for every history whose accounts are all EthAccounts (the only kind the previous
+    rounds generated): on that class the two loaders cannot be told apart *)
+Example eth_only_loader_same_on_eth_accounts :
+  snd (run ch recover_oracle eth load_eth_only std_chain init hist_touch) =
+  snd (run ch recover_oracle eth load_std std_chain init hist_touch).
+Proof. vm_compute. reflexivity. Qed.
+
+Example eth_only_loader_effect :
+  map r_accepted (snd (run ch recover_oracle kd load_eth_only std_chain init hist_touch)) =
+    [true; true; true; true; true; true; true; false] /\
+  all_executed (trace ch recover_oracle kd load_eth_only std_chain init hist_touch) = [0; 1; 2; 3; 0; 1].
+Proof. vm_compute. split; reflexivity. Qed.
